@@ -408,7 +408,9 @@ fn one_symbol<const CELLS: usize, const PROPS: usize, const UPDATE: bool>() {
         let a = cell_addr(&d, src.rec_tab, src.rec_idx);
         match a {
             Some(addr) => {
-                vassert!(rd.rec == addr, "symbol: every decision uses the probability cell the specification names");
+                // direct bits report address 0; adaptive decisions report cell | update flag
+                let want = if addr == 0 { 0 } else { addr | (UPDATE as usize) };
+                vassert!(rd.rec == want, "symbol: every decision uses the probability cell the specification names (and adapts it only when update is set)");
             }
             None => {
                 vassert!(false, "symbol: specification cell index inside its table");
@@ -1516,9 +1518,10 @@ pub fn reset_state_fill_1_1() {
 
 /// C16(c): once the declared size is reached, a further process_stream call (what Stream::write
 /// does in the data state) consumes nothing and leaves output, coder state and carry untouched.
-fn partial_size_reached<const R: usize>() {
+fn partial_size_reached<const R: usize, const P: usize>() {
     let mut t = Tape::<64>::new();
     let input: [u8; R] = t.bytes::<R>();
+    let carry: [u8; 20] = t.bytes::<20>();
     let range = t.u32();
     let code = t.u32();
     let produced = (t.u16() as usize) & 0xFF;
@@ -1526,6 +1529,15 @@ fn partial_size_reached<const R: usize>() {
     assume(size <= produced as u64);
     let mut d = light_state::<0>(LzmaProperties { lc: 0, lp: 0, pb: 0 }, Some(size));
     set_script(&mut d, [script(1, K_LIT), script(2, K_LIT), script(1, K_LIT), script(1, K_LIT)]);
+    {
+        let b = d.partial_input_buf.get_mut();
+        let mut c = 0;
+        while c < P {
+            b[c] = carry[c];
+            c += 1;
+        }
+    }
+    d.partial_input_buf.set_position(P as u64);
     let mut rd = ArrReader::<R>::new(input, R);
     let mut win = SeqWindow::<4>::new(produced);
     let (ok, r_range, r_code) = {
@@ -1539,7 +1551,7 @@ fn partial_size_reached<const R: usize>() {
     vassert!(rd.pos == 0, "size reached: further input is not consumed");
     vassert!(win.n == 0, "size reached: nothing more is produced");
     vassert!(r_range == range && r_code == code, "size reached: coder state untouched");
-    vassert!(d.partial_input_buf.position() == 0, "size reached: nothing is stashed");
+    vassert!(d.partial_input_buf.position() == P as u64, "size reached: the carry is left alone");
     vcover!(size == produced as u64, "exactly_reached");
     vcover!(true, "end_reached");
     forget(d);
@@ -1552,5 +1564,121 @@ fn partial_size_reached<const R: usize>() {
 #[cfg_attr(kani, kani::stub(std::io::Error::is_interrupted, crate::verif_common::stub_not_interrupted))]
 #[cfg_attr(kani, kani::stub(crate::decode::lzma::DecoderState::process_next_inner, crate::decode::lzma::verif_h::abs_symbol))]
 pub fn partial_size_reached_r6() {
-    partial_size_reached::<6>()
+    partial_size_reached::<6, 0>()
+}
+
+//@ harness props=C16,C08,C11 tier=quick unwind=22 unwindset=process_mode:4 mem_gb=4 timeout=600 native=no
+//@ bound: process_stream with the declared size already reached while 3 bytes sit in the carry-over buffer, 6 symbolic input bytes
+#[cfg_attr(kani, kani::proof)]
+#[cfg_attr(kani, kani::stub(std::fmt::format, crate::verif_common::stub_format))]
+#[cfg_attr(kani, kani::stub(std::io::Error::is_interrupted, crate::verif_common::stub_not_interrupted))]
+#[cfg_attr(kani, kani::stub(crate::decode::lzma::DecoderState::process_next_inner, crate::decode::lzma::verif_h::abs_symbol))]
+pub fn partial_size_reached_r6_carry3() {
+    partial_size_reached::<6, 3>()
+}
+
+/// Stream::finish path: process(Finish) on (carry of P bytes, empty reader), no size in effect.
+/// The carry holds NS complete abstract symbols of L bytes and TAIL further bytes.
+fn finish_with_carry<const NS: usize, const L: usize, const TAIL: usize, const LASTK: usize>() {
+    let mut t = Tape::<64>::new();
+    let carry: [u8; 20] = t.bytes::<20>();
+    let code = t.u32();
+    let p = NS * L + TAIL;
+    let mut d = light_state::<0>(LzmaProperties { lc: 0, lp: 0, pb: 0 }, None);
+    let mut sc = [script(20, K_LIT); 4];
+    let mut i = 0;
+    while i < NS {
+        sc[i] = script(L, if i + 1 == NS { LASTK } else { K_LIT });
+        i += 1;
+    }
+    set_script(&mut d, sc);
+    {
+        let b = d.partial_input_buf.get_mut();
+        let mut c = 0;
+        while c < p {
+            b[c] = carry[c];
+            c += 1;
+        }
+    }
+    d.partial_input_buf.set_position(p as u64);
+    let mut rd = ArrReader::<1>::new([0], 0);
+    let mut win = SeqWindow::<4>::new(0);
+    let (ok, r_code) = {
+        let mut rc = RangeDecoder::from_parts(&mut rd, 0xFFFF_FFFF, code);
+        let r = d.process(&mut win, &mut rc);
+        let ok = r.is_ok();
+        forget(r);
+        (ok, rc.code)
+    };
+    // model: fold the NS symbols
+    let mut c = code;
+    let mut rg = 0xFFFF_FFFFu32;
+    let mut j = 0;
+    while j < NS {
+        let (a, b) = abs_fold(rg, c, carry[j * L], carry[j * L + L - 1]);
+        rg = a;
+        c = b;
+        j += 1;
+    }
+    if TAIL > 0 {
+        vassert!(!ok, "finish: bytes of an incomplete symbol left in the carry-over buffer are an error, whatever the coder state");
+    } else if NS > 0 && LASTK == K_MARKER {
+        vassert!(ok == (c == 0), "finish: marker at the very end of the carried bytes: Ok iff the coder is clean");
+        if ok {
+            vassert!(win.n == NS - 1, "finish: the symbols before the marker were committed");
+        }
+    } else {
+        // no marker: only the recorded finding D4 (code == 0 at the end) may succeed
+        vcover!(ok, "KF:C08:nosize-eof-code0-without-marker");
+        if ok {
+            vassert!(c == 0, "finish: without a marker success is only the recorded loop-head exit with code == 0");
+        }
+    }
+    if ok {
+        vassert!(r_code == c, "finish: coder state advanced by the carried symbols");
+        vassert!(d.partial_input_buf.position() == 0, "finish: carry drained");
+    }
+    vcover!(true, "end_reached");
+    forget(d);
+}
+
+
+//@ harness props=C05,C08,C15 tier=quick unwind=22 unwindset=process_mode:6 mem_gb=4 timeout=600 native=no opt_covers=KF:C08:nosize-eof-code0-without-marker
+//@ bound: process(Finish) (what Stream::finish runs) on a carry-over buffer holding one complete literal (2 bytes) + 3 bytes of an incomplete symbol; empty reader, symbolic coder code, no size in effect
+#[cfg_attr(kani, kani::proof)]
+#[cfg_attr(kani, kani::stub(std::fmt::format, crate::verif_common::stub_format))]
+#[cfg_attr(kani, kani::stub(std::io::Error::is_interrupted, crate::verif_common::stub_not_interrupted))]
+#[cfg_attr(kani, kani::stub(crate::decode::lzma::DecoderState::process_next_inner, crate::decode::lzma::verif_h::abs_symbol))]
+pub fn finish_carry_tail3() {
+    finish_with_carry::<1, 2, 3, 0>()
+}
+
+//@ harness props=C05,C08,C15 tier=quick unwind=22 unwindset=process_mode:6 mem_gb=4 timeout=600 native=no opt_covers=KF:C08:nosize-eof-code0-without-marker
+//@ bound: process(Finish) (what Stream::finish runs) on a carry-over buffer holding 5 bytes of an incomplete symbol only; empty reader, symbolic coder code, no size in effect
+#[cfg_attr(kani, kani::proof)]
+#[cfg_attr(kani, kani::stub(std::fmt::format, crate::verif_common::stub_format))]
+#[cfg_attr(kani, kani::stub(std::io::Error::is_interrupted, crate::verif_common::stub_not_interrupted))]
+#[cfg_attr(kani, kani::stub(crate::decode::lzma::DecoderState::process_next_inner, crate::decode::lzma::verif_h::abs_symbol))]
+pub fn finish_carry_only_tail() {
+    finish_with_carry::<0, 1, 5, 0>()
+}
+
+//@ harness props=C05,C08,C15 tier=quick unwind=22 unwindset=process_mode:6 mem_gb=4 timeout=600 native=no opt_covers=KF:C08:nosize-eof-code0-without-marker
+//@ bound: process(Finish) (what Stream::finish runs) on a carry-over buffer holding literal + end marker (3 bytes each), nothing after; empty reader, symbolic coder code, no size in effect
+#[cfg_attr(kani, kani::proof)]
+#[cfg_attr(kani, kani::stub(std::fmt::format, crate::verif_common::stub_format))]
+#[cfg_attr(kani, kani::stub(std::io::Error::is_interrupted, crate::verif_common::stub_not_interrupted))]
+#[cfg_attr(kani, kani::stub(crate::decode::lzma::DecoderState::process_next_inner, crate::decode::lzma::verif_h::abs_symbol))]
+pub fn finish_carry_marker() {
+    finish_with_carry::<2, 3, 0, 1>()
+}
+
+//@ harness props=C05,C08,C15 tier=quick unwind=22 unwindset=process_mode:6 mem_gb=4 timeout=600 native=no
+//@ bound: process(Finish) (what Stream::finish runs) on a carry-over buffer holding two literals, no marker; empty reader, symbolic coder code, no size in effect
+#[cfg_attr(kani, kani::proof)]
+#[cfg_attr(kani, kani::stub(std::fmt::format, crate::verif_common::stub_format))]
+#[cfg_attr(kani, kani::stub(std::io::Error::is_interrupted, crate::verif_common::stub_not_interrupted))]
+#[cfg_attr(kani, kani::stub(crate::decode::lzma::DecoderState::process_next_inner, crate::decode::lzma::verif_h::abs_symbol))]
+pub fn finish_carry_lits() {
+    finish_with_carry::<2, 3, 0, 0>()
 }
